@@ -77,3 +77,25 @@ def replay(ctx, obj):
 
 
 from . import _readers; _readers.install(globals())  # noqa: E402,E702  reader-only and log formats (Iodata.Props.C03Readers)
+
+
+def _wrap_labelled():
+    """labelled records (WFX gradient rows): appended after the readers hook so that both wrappers run"""
+    from . import _labelled
+
+    g = globals()
+    base_search, base_replay = g["search"], g["replay"]
+
+    def search(ctx):
+        base_search(ctx)
+        _labelled.search(ctx)
+
+    def replay(ctx, obj):
+        if obj.get("input", {}).get("kind") == "labelled":
+            return _labelled.replay(ctx, obj)
+        return base_replay(ctx, obj)
+
+    g["search"], g["replay"] = search, replay
+
+
+_wrap_labelled()
